@@ -196,7 +196,11 @@ func (p *Prog) synthesizeAutos() {
 			if fn.Pkg == nil || fn.Pkg.Pkg.Path() != a.PkgPath || fn.Parent() != nil || fn.Blocks == nil || fn.Synthetic != "" {
 				continue
 			}
-			if !callsAppend(fn, 0) {
+			if a.Kind == "decoders" {
+				if !strings.HasPrefix(fn.Name(), "Deserialize") {
+					continue
+				}
+			} else if !callsAppend(fn, 0) {
 				// Append calls may sit in function literals that the function calls directly
 				found := false
 				for _, af := range fn.AnonFuncs {
